@@ -317,6 +317,23 @@ def _auto(b, e):
         # explicitly non-panicking arithmetic cannot crash in any build; whether the wrapped / saturated VALUE is right is the
         # business of the property that consumes it (C01 containment, C09 range form, ..), not of "no guest-triggered crash"
         return "explicitly wrapping / saturating arithmetic: never panics, in checked or unchecked builds"
+    if k == "unchecked_addr" and e.get("callee", "").split("::")[-1] == "unchecked_align_up" and len(e.get("ops") or ()) == 2:
+        # a.unchecked_align_up(p) computes (a + (p - 1)) & !(p - 1): the sum fits exactly when raw(a) <= MAX - (p - 1) = !(p - 1)
+        a_, p_ = deep_strip(e["ops"][0]), deep_strip(e["ops"][1])
+        while a_[0] in ('ref', 'deref'):
+            a_ = deep_strip(a_[1])
+        for r in _F(b, e):
+            if r[0] == 'cmp' and r[1] == 'Le':
+                lhs, rhs = deep_strip(r[2]), deep_strip(r[3])
+                if is_call(lhs, "raw_value") and lhs[2]:
+                    x = deep_strip(lhs[2][0])
+                    while x[0] in ('ref', 'deref'):
+                        x = deep_strip(x[1])
+                    if x == a_ and is_call(rhs, "not") and rhs[2]:
+                        m_ = deep_strip(rhs[2][0])
+                        if is_call(m_, "sub") and len(m_[2]) == 2 and deep_strip(m_[2][0]) == p_ and is_call(deep_strip(m_[2][1]), "one"):
+                            return "dominated by raw_value(a) <= !(p - 1): a + (p - 1) cannot overflow"
+        return None
     if k.startswith("Overflow:Sh"):
         # cond: rhs < BITS
         rhs = deep_strip(e["ops"][1])
